@@ -255,6 +255,16 @@ class Engine:
         if z3.is_true(zs):
             return Outcome(name, 'ok', None, info, list(self.decisions), 'trivial', trivial=True)
         neg = z3.Not(z)
+        if (info or {}).get('probe_first'):
+            # purity obligations are polynomial identities in free constants: a point instantiation evaluates them at
+            # once, whereas the universal query over many products can run away
+            for k, ph in enumerate((info or {}).get('probe', [])):
+                ph = ph() if callable(ph) else ph
+                if ph is None:
+                    continue
+                r, s = self.check(neg, *[tob(h) for h in ph], with_axioms=True, timeout_ms=10000)
+                if r == 'sat':
+                    return Outcome(name, 'cex', s.model(), info, list(self.decisions), 'probe%d' % k, sexpr=_short(zs))
         if hyp and name.startswith('twin:'):
             # a twin stated at a point instantiation only applies on paths that contain that point
             r0, _ = self.check(*hyp, with_axioms=False, timeout_ms=to)
@@ -284,8 +294,15 @@ class Engine:
         return Outcome(name, 'unknown', None, info, list(self.decisions), why, sexpr=_short(zs))
 
 
+z3.set_option(max_args=12, max_lines=8, max_depth=10, max_visited=400, max_width=120)
+
+
 def _short(z, n=400):
-    s = z.sexpr()
+    """bounded rendering of a formula (sexpr() of a large shared term is exponential; the pretty printer is bounded)"""
+    try:
+        s = str(z).replace('\n', ' ')
+    except Exception:   # noqa
+        s = '<formula>'
     return s if len(s) <= n else s[:n] + ' ...'
 
 
